@@ -112,6 +112,12 @@ Inductive sres := Next (p : pc) (s : st) | Done (r : fres).
 
 Definition msg1 (pre : string) (arg : bytes) (post : string) : bytes := (codes pre ++ arg ++ codes post)%list.
 
+Definition err_unknown (arg : bytes) : fres := FErr (msg1 "unknown flag `" arg "'").
+Definition err_boolarg (arg : bytes) : fres := FErr (msg1 "boolean flag `" arg "' cannot have an argument").
+Definition err_expected (arg : bytes) : fres := FErr (msg1 "expected argument for flag `" arg "'").
+Definition err_expected2 (arg : bytes) : fres := FErr (msg1 "expected 2 arguments for flag `" arg "'").
+Definition err_invalid (arg : bytes) : fres := FErr (msg1 "invalid argument for flag `" arg "': ").
+
 (* for i := 1; i < len(arg); i++ { opt := arg[i:i+1]; if val, ok = shortToValue[opt]; ok { if val.Kind() != Bool { break } }
    else if !letter(opt) { skip = true; break } }      — run over arg[1:], result (skip, ok, val) *)
 Fixpoint short_scan (l : bytes) (ok : bool) (v : option nat) : bool * bool * option nat :=
@@ -156,16 +162,16 @@ Definition top (s : st) : sres :=
             | Some v =>
                 match slice arg 0 j with None => Done (FPanic 4) | Some argj =>
                 match kind_of v with
-                | KBool => Done (FErr (msg1 "boolean flag `" argj "' cannot have an argument"))
+                | KBool => Done (err_boolarg argj)
                 | _ =>
                     match slice arg (j + 1) (blen arg) with None => Done (FPanic 5) | Some tailv =>
                     match set_arg (args s) (i s) tailv with None => Done (FPanic 6) | Some a' =>
                     Next (PS argj v []) (upd_i (upd_args s a') (i s - 1))
                     end end
                 end end
-            | None => Done (FErr (msg1 "unknown flag `" arg "'"))
+            | None => Done (err_unknown arg)
             end end
-        | None => Done (FErr (msg1 "unknown flag `" arg "'"))
+        | None => Done (err_unknown arg)
         end
     end end
   else if (blen arg >? 1) && (match byte_at arg 0 with Some c => N.eqb c dash | None => false end) then
@@ -184,7 +190,7 @@ Definition top (s : st) : sres :=
 Definition at_S (s : st) (arg : bytes) (v : nat) (so : bytes) : sres :=
   let need_arg (k : st -> bytes -> sres) : sres :=
     let j := i s + 1 in
-    if j >=? Z.of_nat (List.length (args s)) then Done (FErr (msg1 "expected argument for flag `" arg "'"))
+    if j >=? Z.of_nat (List.length (args s)) then Done (err_expected arg)
     else match arg_at (args s) j with None => Done (FPanic 10) | Some a => k (upd_i s j) a end in
   match kind_of v with
   | KBool => Next (PL so) (upd_opts s (set_opt v (VBool true) (opts s)))
@@ -193,7 +199,7 @@ Definition at_S (s : st) (arg : bytes) (v : nat) (so : bytes) : sres :=
       need_arg (fun s' a =>
         match atoi a with
         | Some z => Next (PL so) (upd_opts s' (set_opt v (VInt (Some z)) (opts s')))
-        | None => Done (FErr (msg1 "invalid argument for flag `" arg "': "))
+        | None => Done (err_invalid arg)
         end)
   | KOtherPtr => Next (PL so) s
   | KSlice =>
@@ -219,7 +225,7 @@ Definition at_S (s : st) (arg : bytes) (v : nat) (so : bytes) : sres :=
       end
   | KMap =>
       let j := i s + 2 in
-      if j >=? Z.of_nat (List.length (args s)) then Done (FErr (msg1 "expected 2 arguments for flag `" arg "'"))
+      if j >=? Z.of_nat (List.length (args s)) then Done (err_expected2 arg)
       else match arg_at (args s) (j - 1), arg_at (args s) j with
            | Some name, Some value =>
                if existsb (bytes_eqb name) (mapkeys s) then Next (PL so) (upd_i s j)
@@ -240,7 +246,7 @@ Definition at_L (s : st) (so : bytes) : sres :=
   | _ :: _ =>
       match slice so 0 1 with None => Done (FPanic 20) | Some opt =>
       match lookup_short opt with
-      | None => Done (FErr (msg1 "unknown flag `" opt "'"))
+      | None => Done (err_unknown opt)
       | Some v =>
           let arg := dash :: opt in
           if (match kind_of v with KBool => false | _ => true end) && (blen so >? 1) then
